@@ -88,8 +88,8 @@ func c10Expect(entry string, frame []byte) (int, int) {
 
 func runC10(w *vx.W) {
 	thorough := !w.Quick()
-	singles := []namedStream{sMin12, sMin14, sMin14z, sAct3, sAct3BE, sSet}
-	chains := []namedStream{sChain2, sChain2b, sChain3}
+	singles := []namedStream{sMin12, sMin14, sMin14z, sAct3, sAct3BE, sSet, sMonState, sZero}
+	chains := []namedStream{sChain2, sChain2b, sChain3, sChainState, sChainState3, sChainZero}
 	entries := []string{"Decode", "CheckIntegrity", "CheckIntegrityHeaderOnly", "DecodeHeader", "DecodeHeaderAndFileID"}
 	states := map[uint64]struct{}{}
 
